@@ -234,11 +234,22 @@ def check(prop, tier, seed):
             # the bounded family already exhibits a failing input for this property
             fl = b["failures"][0]
             payload["native_search"] = {"suite": prop, "kind": fl["kind"], "params": fl["params"], "detail": fl["detail"]}
-        if o.cls in ("input", "lemma") or found or o.name in baseline:
+        # (a) input-level refutation by an SMT model: a violation as such.
+        # (b) sufficient-condition refutations (value view / exact-algebra procedures: the
+        #     identity fails, which refutes only the proof attempt) and loop-invariant
+        #     obligations: a violation only with a native failing input, or -- for
+        #     post/xpost/frame/rel/lemma obligations -- when the obligation is in the committed
+        #     baseline of obligations discharged on the reference tree (regression).
+        premise = str(r.get("backend", "")).startswith(("valueview", "exact")) or o.view == "custom" \
+            or o.cls in ("inductive", "premise")
+        inv = o.kind.startswith("inv-")
+        payload["class"] = "premise" if premise else o.cls
+        if found or (not premise and not inv) or (o.name in baseline and not inv):
             path = write_replay(prop, o.name, payload)
             violations.append((o.name, path, found))
         else:
-            undecided.append({"obligation": o.name, "reason": "counter-model of an inductive/premise obligation that never passed; no native failing input"})
+            undecided.append({"obligation": o.name, "reason": "refuted proof step (%s) without native failing input and not a baseline regression: %s" % (
+                "loop invariant" if inv else "sufficient condition", json.dumps(r.get("value_failure", r.get("model", {})), default=str)[:300])})
 
     for o, r in unknown:
         undecided.append({"obligation": o.name, "reason": "solver: %s" % (r.get("reason") or r["result"])})
